@@ -1,7 +1,7 @@
 ------------------------------ MODULE MC_Cache ------------------------------
 (* TLC-only definitions for Cache.tla: bounded payload sets, the view that makes the state graph
    finite, and the edge printer used by the Gen_* configurations. *)
-EXTENDS Cache, Json, CSV, IOUtils
+EXTENDS Cache, Json
 
 CONSTANTS MCSizes, MCIds, MaxClock, MaxDepth
 
@@ -55,11 +55,10 @@ EdgeOut ==
     <<OpIx(op'.name), RouteIx(op'.route), op'.host, op'.size, op'.id, op'.d>>,
     ResOut(op'.res, clock'), B(op'.panic),
     StateOut(entries', total', clock')>>
-EmitEdge     == PrintT(ToJson(EdgeOut))
-\* the same line appended to the file named by the environment variable EDGES (large graphs: the
-\* lines go straight to the harness instead of through the driver)
-EmitEdgeFile == CSVWrite("%1$s", <<ToJson(EdgeOut)>>, IOEnv.EDGES)
-\* depth-bounded generation: print the edge, then keep the successor only while the source state is
-\* fewer than MaxDepth steps from the initial state (TLC's level of the initial state is 1)
-EmitEdgeFileBounded == EmitEdgeFile /\ TLCGet("level") <= MaxDepth
+EmitEdge     == PrintT("E" \o ToJson(EdgeOut))
+\* (the leading E keeps the driver from decoding millions of lines; it passes them to the harness as text)
+\* depth-bounded generation: print the edge, then keep the successor only while the SOURCE state is at
+\* most MaxDepth - 1 steps from the initial state (TLC's level of the initial state is 1; breadth-first
+\* levels are exact only with one worker).  All sequences of MaxDepth + 1 operations stay inside.
+EmitEdgeBounded == EmitEdge /\ TLCGet("level") <= MaxDepth
 =============================================================================
